@@ -225,12 +225,29 @@ def rule_backoff(ctx):
     n += 1
     ok2 = False
     if le is not None:
-        ifs = [s for s in le.own_nodes() if isinstance(s, ast.If) and 'self.failover()' in norm(s.test)]
-        if len(ifs) == 1:
-            cjs = pr.conjuncts(ifs[0].test)
-            ok2 = len(cjs) == 2 and q.cmp_matches(ctx, le, cjs[0], f'{rv} == self.max_retry') and norm(cjs[1]) == 'self.failover()' \
-                and [norm(x) for x in ifs[0].body] == [f'{rv} = 0'] \
-                and any(isinstance(s, ast.Nonlocal) and rv in s.names for s in le.node.body)
+        # per path through the failure handler, tests split into atoms (`a and b` or nested ifs alike): failover() is asked
+        # only once the delay is at the maximum, and the back-off restarts exactly when it switched
+        from .. import paths as P
+        ok2 = any(isinstance(s, ast.Nonlocal) and rv in s.names for s in le.node.body)
+        asked = switched = 0
+        for pth in P.paths(le.node.body) if ok2 else []:
+            at_max = None
+            for t, pol, _n in pth.conds:
+                if isinstance(t, ast.expr) and q.cmp_matches(ctx, le, t, f'{rv} == self.max_retry'):
+                    at_max = pol
+                elif isinstance(t, ast.expr) and q.cmp_matches(ctx, le, t, f'{rv} != self.max_retry'):
+                    at_max = not pol
+            fo = P.truthy(pth, 'self.failover()')
+            did = rv in pth.env and const_value(pth.env[rv]) == 0          # the delay as the handler leaves it
+            if fo is not None:
+                asked += 1
+                ok2 = ok2 and at_max is True
+            elif at_max is True:
+                ok2 = False          # at the maximum, yet no fail-over attempted on this path
+            if did:
+                switched += 1
+            ok2 = ok2 and did == (fo is True)
+        ok2 = ok2 and asked >= 2 and switched >= 1
     ctx.check(ok2, 'C18.BACKOFF', ctx.key(f, None, 'fail-over at the maximum'),
               'once the delay has reached max_retry a failure triggers failover() and, if it switched, restarts the back-off',
               'fail-over is not triggered exactly when retry == max_retry (and the back-off restarted on a switch)', loc=ctx.loc(f, f.node))
@@ -246,7 +263,7 @@ def rule_backoff(ctx):
         many = P.decided(ctx, fo, pth, 'len(self.urls) > 1')
         moved = any(st_ is ups[0] for st_, _e in pth.events) if ups else False
         ok3 = ok3 and many is not None and moved == many and norm(pth.value) == str(many) \
-            and len([c for c in pth.conds if isinstance(c[0], ast.expr)]) == 1
+            and len(pth.decisions()) == 1
     rets = {'True', 'False'}
     ctx.check(ok3 and rets == {'True', 'False'}, 'C18.BACKOFF', ctx.key(fo, None, 'round robin'),
               'failover() moves to the next URL round-robin iff there is more than one, and says whether it did',
@@ -307,26 +324,25 @@ def rule_warmup(ctx):
         proc = reply_processor(f)
         if proc is None:
             raise AnalysisError(f'{f.key}: reply processor (the nested function raising DaemonError) not found')
-        cfg = ctx.cfg(proc)
-        tests = [s for s in proc.own_nodes() if isinstance(s, ast.If) and 'self.WARMING_UP' in norm(s.test)
-                 and any(isinstance(x, ast.Raise) and 'WarmingUpError' in norm(x.exc) for x in s.body)]
-        ok = len(tests) == 1
+        # per path out of the processor: a result or a DaemonError leaves only on a path that looked at the error code and
+        # found it is not "warming up" - or on which there was no error at all
+        from .. import paths as P
+        raises_w = [x for x in proc.own_nodes() if isinstance(x, ast.Raise) and x.exc is not None and 'WarmingUpError' in norm(x.exc)]
+        ok = bool(raises_w)
         why = 'no `raise WarmingUpError` under a WARMING_UP test'
+        bad = []
+        for pth in P.paths(proc.node.body) if ok else []:
+            leaves = pth.exit in ('return', 'fall') or (pth.exit == 'raise' and pth.value is not None and 'DaemonError' in norm(pth.value))
+            if not leaves:
+                continue
+            not_warming = any((not pol) and isinstance(t, ast.expr) and 'self.WARMING_UP' in norm(t) for t, pol, _n in pth.conds)
+            no_error = any((not pol) and isinstance(t, ast.expr) and not isinstance(t, (ast.Compare, ast.Call, ast.BoolOp))
+                           and 'error' in norm(t) for t, pol, _n in pth.conds)
+            if not (not_warming or no_error):
+                bad.append(f'{pth.exit} under {pth.cond_texts()}')
         if ok:
-            tn = cfg.node(tests[0])
-            bad = []
-            for s in proc.own_nodes():
-                if isinstance(s, ast.Return) or (isinstance(s, ast.Raise) and 'DaemonError' in norm(s.exc)):
-                    if isinstance(s, ast.Return):
-                        conds = pr.control_conditions(s, proc.node)
-                        # a return taken only when there is no error at all need not look at the error code
-                        if len(conds) == 1 and conds[0][1] and isinstance(conds[0][0], ast.UnaryOp) and isinstance(conds[0][0].op, ast.Not) \
-                                and isinstance(conds[0][0].operand, ast.Name):
-                            continue
-                    if not cfg.dominates(tn, cfg.node(s)):
-                        bad.append(norm(s))
             ok = not bad
-            why = f'{bad} can be reached without the warming-up test'
+            why = f'{bad[:2]} can be reached without the warming-up test'
         ctx.check(ok, 'C18.WARMUP', ctx.key(proc, None, 'warming-up first'),
                   'a warming-up reply is turned into a retry before any result (also error-replaced) or DaemonError leaves the processor',
                   f'{why}: a warming-up daemon\'s reply is returned (as None results) or raised as a genuine error instead of retried',
